@@ -90,10 +90,13 @@ namespace nmtools::index
             else if (ia<(ba+aa)) {
                 using idx_t = meta::promote_index_t<size_t,axis_t>;
                 bflag = true;
+                // negative axis counts from the end (numpy)
+                const auto m_axis = static_cast<idx_t>(axis);
+                const auto n_axis = (m_axis < 0) ? static_cast<idx_t>(m_axis + static_cast<idx_t>(bd)) : m_axis;
                 // select ashape, must apply offset from ashape
                 for (size_t i=0; i<bd; i++) {
                     // TODO: do not use tuple_at
-                    if (static_cast<idx_t>(i)==static_cast<idx_t>(axis))
+                    if (static_cast<idx_t>(i)==n_axis)
                         at(b_indices,i) = tuple_at(indices,i) - aa;
                     else at(b_indices,i) = tuple_at(indices,i);
                 }
@@ -192,10 +195,13 @@ namespace nmtools::index
             }
             else if (ad==bd) {
                 using idx_t = meta::promote_index_t<size_t,axis_t>;
+                // negative axis counts from the end (numpy)
+                const auto m_axis = static_cast<idx_t>(axis);
+                const auto n_axis = (m_axis < 0) ? static_cast<idx_t>(m_axis + static_cast<idx_t>(ad)) : m_axis;
                 auto shape_concatenate_impl = [&](auto i){
                     auto ai = at(ashape,i);
                     auto bi = at(bshape,i);
-                    if (static_cast<idx_t>(i)==static_cast<idx_t>(axis)) {
+                    if (static_cast<idx_t>(i)==n_axis) {
                         at(ret,i) = ai + bi;
                     }
                     // TODO: consider to provide platform dependent index_t
